@@ -225,7 +225,8 @@ def check_case(case, counters, sets):
                         'polling loop #%d %s at t=%s although loop #%d was already polling (%d loops begun in total)'
                         % (rid, what, e[1], newest, len(run_begins)))
                 newest = max(newest, rid)
-            if stopped_now and e[2] == 'CYCLE_BEGIN':
+            if stopped_now:
+                # CYCLE_BEGIN of a _run()-based source, or a new item taken by from_iterable (logged when the emission starts)
                 add('C18:cycle-begun-while-stopped@%s' % kind, 'a polling loop %s at t=%s while the source was stopped' % (what, e[1]))
     counters['cycles_attributed_to_runs'] = counters.get('cycles_attributed_to_runs', 0) + n_attr
     delivered = [e[4] for e in ev if e[2] == 'CALLED']
